@@ -34,13 +34,22 @@ import socketserver
 
 logging.disable(logging.CRITICAL)
 
-START, STOP, REQUEST = 0, 1, 2
-OPNAME = {0: "start", 1: "stop", 2: "request", 3: "tick"}
+START, STOP, REQUEST, STOP_BUSY = 0, 1, 2, 4
+OPNAME = {0: "start", 1: "stop", 2: "request", 3: "tick", 4: "stop_while_handler_blocks"}
 
 
 # ============================================================================ real-server histories
 class _TftpHandler(S.TftpRequestHandler):
+    """serves b"hello"; a request for the file "block" makes can_handle (which runs on the server's main
+    thread) wait until the harness releases it"""
+    def __init__(self):
+        self.entered = threading.Event()
+        self.release = threading.Event()
+
     def can_handle(self, filename, context):
+        if filename == "block":
+            self.entered.set()
+            self.release.wait(8.0)
         return True
 
     def handle(self, filename, client_address, server_address, context):
@@ -155,8 +164,10 @@ def run_history(kind, h):
     """returns the per-operation observations [raised, port bound, live server threads, request outcome, hang]"""
     baseline = set(threading.enumerate())
     port = _free_port(kind)
+    handler = None
     if kind == "tftp":
-        srv = S.TftpServer([_TftpHandler()], "::1", port, default_timeout=0.3, max_retries=0)
+        handler = _TftpHandler()
+        srv = S.TftpServer([handler], "::1", port, default_timeout=0.3, max_retries=0)
     else:
         srv = H.HttpServer([_HttpHandler()], "::1", port)
     obs = []
@@ -185,12 +196,57 @@ def run_history(kind, h):
                     raised = 1
                 else:
                     expect_running = 1 if o == START else 0
+            elif o == STOP_BUSY:
+                # stop() while the main thread sits in a request handler: has stop() returned, with the main
+                # thread still alive, before the handler is released (deadline 1.5 s)?
+                blocked = False
+                if kind == "tftp" and expect_running:
+                    handler.entered.clear()
+                    handler.release.clear()
+                    bc = real_socket.socket(real_socket.AF_INET6, real_socket.SOCK_DGRAM)
+                    bc.sendto(b"\x00\x01block\x00octet\x00", ("::1", port))
+                    blocked = handler.entered.wait(1.0)
+                done = []
+
+                def call_stop():
+                    try:
+                        srv.stop()
+                        done.append(0)
+                    except BaseException:      # noqa
+                        done.append(1)
+                th = threading.Thread(target=call_stop, daemon=True)
+                th.start()
+                th.join(1.5 if blocked else 5.0)
+                if blocked:
+                    returned = not th.is_alive()
+                    live = len([t for t in threading.enumerate() if t not in baseline and t is not th and t.is_alive()])
+                    served = 1 if (returned and live >= 1) else 0       # "stop() returned while the main thread is alive"
+                    handler.release.set()
+                    try:                   # let the released transfer finish quickly: acknowledge its only block
+                        bc.settimeout(1.0)
+                        data, addr = bc.recvfrom(2048)
+                        if data[:2] == b"\x00\x03":
+                            bc.sendto(b"\x00\x04" + data[2:4], addr)
+                    except OSError:
+                        pass
+                    th.join(5.0)
+                if kind == "tftp" and expect_running:
+                    bc.close()
+                if th.is_alive():
+                    hang = 1
+                    baseline.add(th)
+                elif done and done[0]:
+                    raised = 1
+                else:
+                    expect_running = 0
             elif o == REQUEST:
                 served = (_tftp_request if kind == "tftp" else _http_request)(port)
             obs.append([raised, _port_bound(kind, port, expect_running), _extra_threads(baseline, expect_running), served, hang])
             if hang:
                 break
     finally:
+        if handler is not None:
+            handler.release.set()
         try:
             t = threading.Thread(target=srv.stop, daemon=True)
             t.start()
@@ -586,6 +642,12 @@ class C20(Check):
                 for _ in range(16):
                     n = rng.choice([5, 6])
                     yield {"kind": "seq", "srv": kind, "h": [rng.choice((START, STOP, REQUEST, START, STOP)) for _ in range(n)]}
+        # stop() while a request handler blocks on the main thread (costs ~1.5 s each)
+        yield {"kind": "seq", "srv": "tftp", "h": [START, STOP_BUSY]}
+        yield {"kind": "seq", "srv": "tftp", "h": [START, REQUEST, STOP_BUSY, START, REQUEST]}
+        if tier != "quick":
+            yield {"kind": "seq", "srv": "tftp", "h": [STOP_BUSY, START, STOP_BUSY, STOP]}
+            yield {"kind": "seq", "srv": "tftp", "h": [START, STOP_BUSY, STOP_BUSY, START, STOP_BUSY]}
         # transfers
         for so in (1, 0):
             for hres in ("file", "tftperror", "exception"):
